@@ -557,6 +557,14 @@ class SymInt:
     def __bool__(self):
         return eng().decide(self.z != _bvval(0))
 
+    def bit_length(self):
+        """int.bit_length(): number of bits of |self| (0 for 0)."""
+        mag = z3.If(self.z < 0, -self.z, self.z)
+        n = _bvval(0)
+        for k in _real_range(W - 1):
+            n = n + z3.If(z3.UGE(mag, _bvval(1 << k)), _bvval(1), _bvval(0))
+        return _mk_int(n)
+
     def __index__(self):
         return eng().concretize(self.z)
 
